@@ -106,6 +106,12 @@ H_POOL = [
     ('principal, action, resource is Doc', 'principal has friend && principal.friend.profile.team in resource.owner.groups'),
     ('principal, action, resource is Doc', '{o: resource.owner}.o in {g: resource.viewers}.g'),
     ('principal, action, resource is Doc', 'principal has "manager" && (principal.manager.age > principal.age) == resource.public'),
+    # bare `has` (no later access re-adds the path): added after mutant M2 (HasAttr path dropped) escaped
+    ('principal, action, resource', 'principal has manager'),
+    ('principal, action, resource is Doc', '!(resource.owner has friend)'),
+    ('principal, action in [Action::"view", Action::"edit"], resource', 'principal.profile has nick || context has via'),
+    ('principal, action, resource is Doc', 'principal.profile.address has zip && resource.folder.owner.profile has nick'),
+    ('principal, action, resource is Doc', 'if principal has friend then resource.public else resource.owner.profile.team has lead'),
 ]
 H_TEMPLATES = [
     ('principal in ?principal, action, resource == ?resource', 'true', {"principal": ("Group", "g"), "resource": ("Doc", "d")}),
